@@ -685,6 +685,12 @@ func (f *frame) invariants(st *State, li *loopInfo, ls *LoopSpec) (labels []stri
 	}
 	if ls != nil {
 		env := f.specEnvInv(st)
+		env.skipBlocks = map[*ssa.BasicBlock]bool{}
+		for b := range li.blocks {
+			if b != li.header {
+				env.skipBlocks[b] = true
+			}
+		}
 		for _, c := range ls.Invariants {
 			labels = append(labels, c.Label)
 			terms = append(terms, env.evalBool(c.E))
@@ -702,6 +708,7 @@ func (f *frame) invariants(st *State, li *loopInfo, ls *LoopSpec) (labels []stri
 
 func (f *frame) loopEntry(st *State, li *loopInfo, ls *LoopSpec) bool {
 	ex := f.ex
+	f.runGhost(st, fmt.Sprintf("loop %d entry", li.ordinal))
 	labels, terms, _ := f.invariants(st, li, ls)
 	if ex.mode.Functional || ex.mode.Safety {
 		for i, t := range terms {
